@@ -133,7 +133,13 @@ def gen(
             "rt",
         ) as f:
             imports = "".join(
-                map(to_code, get_at_root(ast.parse(f.read()), (Import, ImportFrom)))
+                map(
+                    "{}\n".format,
+                    map(
+                        lambda import_node: to_code(import_node).rstrip("\n"),
+                        get_at_root(ast.parse(f.read()), (Import, ImportFrom)),
+                    ),
+                )
             )
 
     module_path, _, symbol_name = input_mapping.rpartition(".")
@@ -179,6 +185,7 @@ def gen(
                             },
                             "function": {
                                 "function_name": _name,
+                                "function_type": "static",
                             },
                             "argparse": {"function_name": _name},
                         }[type_]
